@@ -9,6 +9,7 @@
 //!        c13 seq <maxlen> <shard> <nshards>                       all sequential histories (one thread) up to maxlen ops
 //!        c13 exhp <bound> <maxexecs> <program>                    all schedules <= bound preemptions of ONE given program (search phase)
 //!        c13 one <program> <schedule>                             replay, e.g. one "cs0|cs0" 0,1,1,1,0,0,0
+//!        c13 posixseq <maxlen> <shard> <nshards>                  sequential histories on posix_shared_memory (oracle only: `driver oracle`)
 //!        c13 posix <program> <schedule>                           replay on posix_shared_memory storage (observations only)
 //! program: threads separated by '|', ops by ',': cs<v> cr<v> (create sender/receiver with
 //! parameter variant v; 0 = base), d<k> (drop the port made by this thread's op k), l<k> (leak
@@ -107,11 +108,29 @@ fn filter_shm(a: &Access) -> u8 {
 
 type Body = Box<dyn FnOnce() + Send>;
 
-trait Port: Send { fn connected(&self) -> bool; }
+trait Port: Send {
+    fn connected(&self) -> bool;
+    /// the owning process died: no Drop logic runs; `release` = give the OS resources (fd, mapping) back the way
+    /// process death does (Abandonable::abandon_in_place), otherwise the port object is simply forgotten
+    fn die(self: Box<Self>, release: bool);
+}
 struct SP<C: ZeroCopyConnection>(C::Sender);
 struct RP<C: ZeroCopyConnection>(C::Receiver);
-impl<C: ZeroCopyConnection> Port for SP<C> { fn connected(&self) -> bool { self.0.is_connected() } }
-impl<C: ZeroCopyConnection> Port for RP<C> { fn connected(&self) -> bool { self.0.is_connected() } }
+use iceoryx2_bb_elementary_traits::testing::abandonable::Abandonable;
+impl<C: ZeroCopyConnection> Port for SP<C> {
+    fn connected(&self) -> bool { self.0.is_connected() }
+    fn die(self: Box<Self>, release: bool) {
+        let mut m = core::mem::ManuallyDrop::new(*self);
+        if release { unsafe { <C::Sender as Abandonable>::abandon_in_place(core::ptr::NonNull::from(&mut m.0)) }; }
+    }
+}
+impl<C: ZeroCopyConnection> Port for RP<C> {
+    fn connected(&self) -> bool { self.0.is_connected() }
+    fn die(self: Box<Self>, release: bool) {
+        let mut m = core::mem::ManuallyDrop::new(*self);
+        if release { unsafe { <C::Receiver as Abandonable>::abandon_in_place(core::ptr::NonNull::from(&mut m.0)) }; }
+    }
+}
 
 static START_GATE: iceoryx2_pal_concurrency_sync::atomic::AtomicU8 = iceoryx2_pal_concurrency_sync::atomic::AtomicU8::new(0);
 
@@ -141,7 +160,7 @@ where C::Configuration: Send + 'static, C::Sender: 'static, C::Receiver: 'static
                     ports.push(None);
                 }
                 Op::Leak(j) => {
-                    if let Some(p) = ports.get_mut(j).and_then(|x| x.take()) { core::mem::forget(p); ret(LEAK + j as u64); }
+                    if let Some(p) = ports.get_mut(j).and_then(|x| x.take()) { ungated(|| p.die(start_gate)); ret(LEAK + j as u64); }
                     ports.push(None);
                 }
                 Op::Force(role) => {
@@ -157,7 +176,7 @@ where C::Configuration: Send + 'static, C::Sender: 'static, C::Receiver: 'static
             }
         }
         // ports still held when the program ends stay attached: the model program ends here
-        for p in ports.into_iter().flatten() { core::mem::forget(p); }
+        for p in ports.into_iter().flatten() { ungated(|| p.die(start_gate)); }
     })
 }
 
@@ -218,7 +237,8 @@ fn emit(prog: &[Vec<Op>], ex: &Exec, exists_final: bool, out: &mut impl Write) {
             }
         }
     }
-    let _ = writeln!(out, "C {} {} {}", nt, prog_str(prog), if timeline.is_empty() { "-".to_string() } else { timeline.join(",") });
+    let sched0: Vec<String> = ex.choices.iter().map(|c| c.to_string()).collect();
+    let _ = writeln!(out, "C {} {} {} s={}", nt, prog_str(prog), if timeline.is_empty() { "-".to_string() } else { timeline.join(",") }, sched0.join(","));
     for l in lines { let _ = writeln!(out, "{}", l); }
     if ex.deadlock { let _ = writeln!(out, "X deadlock"); }
     let sched: Vec<String> = ex.choices.iter().map(|c| c.to_string()).collect();
@@ -286,6 +306,14 @@ fn programs() -> Vec<Vec<Vec<Op>>> {
         v.push(vec![vec![Create(S, 0), IsConn(0)], vec![Create(R, k), Drop(0)]]);
         v.push(vec![vec![Create(S, k), Drop(0)], vec![Create(R, 0), Drop(0)]]);
     }
+    // forced removal of a role that is NOT attached while the opposite role is attached, then the probes:
+    // does_exist (every return), a new peer attaches, is_connected on both, the old side detaches
+    v.push(vec![vec![Create(R, 0), IsConn(0), Drop(0)], vec![Force(S), Create(S, 0), IsConn(1)]]);
+    v.push(vec![vec![Create(S, 0), IsConn(0), Drop(0)], vec![Force(R), Create(R, 0), IsConn(1)]]);
+    v.push(vec![vec![Create(R, 0), Drop(0)], vec![Force(S)], vec![Force(S)]]);
+    v.push(vec![vec![Create(S, 0), IsConn(0)], vec![Force(R)], vec![Force(R), Create(R, 0), IsConn(1)]]);
+    v.push(vec![vec![Create(S, 0), Drop(0)], vec![Create(R, 0), IsConn(0), Drop(0)], vec![Force(S)]]);
+    v.push(vec![vec![Create(R, 0), Drop(0)], vec![Create(S, 0), IsConn(0), Drop(0)], vec![Force(R)]]);
     // a dead sender / receiver cleaned up by two racing cleaners, then re-created
     v.push(vec![vec![Create(S, 0), Leak(0), Force(S), Create(S, 0)], vec![Force(S)]]);
     v.push(vec![vec![Create(R, 0), Leak(0), Force(R), Create(R, 0)], vec![Force(R), Create(S, 0)]]);
@@ -413,6 +441,29 @@ fn main() {
             let ex = run_threads(bodies_pl(&name, &prog), &mut chooser);
             let e = finish_pl(&name);
             emit(&prog, &ex, e, &mut out);
+        }
+        "posixseq" => {
+            // all sequential histories up to maxlen on posix_shared_memory storage: observations only
+            // (results, does_exist after every op, is_connected, final does_exist) for the property oracle
+            fn filter_none(_a: &Access) -> u8 { FILTER_SKIP }
+            set_filter(filter_none);
+            let maxlen: usize = a[2].parse().unwrap(); let shard: usize = a[3].parse().unwrap(); let nsh: usize = a[4].parse().unwrap();
+            let cfg: <ShmConn as NamedConceptMgmt>::Configuration = Default::default();
+            let mut n = 0usize;
+            for len in 1..=maxlen {
+                let mism: Vec<usize> = if len <= 2 { vec![1, 3] } else { vec![] };
+                for h in seq_histories(len, &mism) {
+                    n += 1;
+                    if n % nsh != shard { continue; }
+                    let prog = vec![h];
+                    let name = fresh_name();
+                    let b: Box<dyn FnOnce()> = body::<ShmConn>(name, cfg.clone(), prog[0].clone(), true);
+                    let ex = run_inline(b);
+                    let e = ShmConn::does_exist_cfg(&name, &cfg).unwrap_or(false);
+                    let _ = unsafe { ShmConn::remove_cfg(&name, &cfg) };
+                    emit(&prog, &ex, e, &mut out);
+                }
+            }
         }
         "posix" => {
             // replay on the inter-process storage: gates = op start, state byte, SharedMemory::has_ownership;
